@@ -365,3 +365,24 @@ REGISTRY["C18"] = {
         {"name": "TestC18ProcessSet", "checks": {"quick": 120, "thorough": 4000}, "shards": {"quick": 16, "thorough": 16}, "gomaxprocs": [4, 2, 16, 1]},
     ],
 }
+
+REGISTRY["C07"] = {
+    "pkg": "props/c07",
+    "level": "fault_enumeration",
+    "level_text": ("Cancellation points indexed by the number of traces the (unbuffered) recording subscriber has received when it calls cancel() - an exact position "
+                   "in the tracer's total order - for a corpus of 14 programs covering tasks awaiting an answer, a half-full parallel join, exclusive probes, "
+                   "inclusive fork/join, loops, running / nested / not-yet-reached sub-processes, nodes on untaken branches, conditional flows leaving a task, "
+                   "listening catch events, an armed event-based gateway, boundary listeners, parallel catch events; each program is walked through its life by a "
+                   "script of answers and events. Thorough: EVERY position k=0..T+1 of every corpus program, plus rapid-drawn (program,k,perturbation) and "
+                   "generated programs; quick: rapid-drawn points only. Oracle after cancel while the subscriber keeps draining: the instance's goroutines come "
+                   "to rest (else: spinning), WaitUntilComplete returned, Tracer().Done() closed, every StartAll/Do/ConsumeEvent call returned, NO goroutine "
+                   "started by the instance is still alive (set difference against the goroutine ids alive before the case), every task request carries a "
+                   "cancelled context."),
+    "level_note": "Trusted: goroutine attribution by baseline id set and the all-parked fixpoint (runtime.Stack(all) is an atomic snapshot). Positions are exact in the trace order but the engine state at a position varies with scheduling; timer-armed programs and process sets are not in the corpus.",
+    "technique": "fault-point enumeration (cancel at every trace position) + rapid-drawn points, leak/stuck oracle by goroutine snapshot",
+    "rule": ("Distinct = (program, cancel position k, perturbation seed). Non-trivial = 0 < k < T (strictly inside the run) with at least one node goroutine started."),
+    "tests": [
+        {"name": "TestC07Points", "checks": {"quick": 80, "thorough": 400}, "shards": {"quick": 12, "thorough": 16}, "gomaxprocs": [4, 2, 16, 1]},
+        {"name": "TestC07Generated", "checks": {"quick": 60, "thorough": 1500}, "shards": {"quick": 4, "thorough": 16}, "gomaxprocs": [4, 2, 16, 1]},
+    ],
+}
